@@ -163,6 +163,7 @@ Proof. unfold scalev. induction v as [|x v IH]; cbn; [reflexivity | rewrite IH; 
 Lemma xorv_scalev_false c D : length c = length D -> xorv c (scalev false D) = c.
 Proof.
   revert D; induction c as [|x c IH]; intros [|y D] H; cbn in *; try discriminate; [reflexivity|].
+  change (map (andb false) D) with (scalev false D).
   rewrite IH by lia. destruct x; reflexivity.
 Qed.
 
@@ -234,7 +235,7 @@ Lemma ot_messages_equal_when_delta_zero L xi ncols Delta q j l :
 Proof.
   intros HD Hq Hj Hl Hc. rewrite send_msgs_eq by assumption. cbn [fst snd]. f_equal.
   assert (Hlen : length (column q (j * L + l)) = length Delta) by (rewrite column_length; exact Hq).
-  revert Hlen HD. generalize (column q (j * L + l)) as c.
+  revert Hlen HD. generalize (column q (j * L + l)) as c. clear Hq.
   induction Delta as [|d D IH]; intros [|x c] Hlen HD; cbn in *; try discriminate; [reflexivity|].
   destruct d; cbn in *; [discriminate|]. rewrite <- IH by (lia || assumption). destruct x; reflexivity.
 Qed.
@@ -381,7 +382,7 @@ Lemma softspoken_check_X_l chi x' Delta t0 t1 X' :
   = negb (existsb (fun b => b) Delta).
 Proof.
   intros W Hne. pose proof (softspoken_check_complete_l chi x' Delta t0 t1 W) as Hc.
-  unfold verify in *. cbn [fst snd] in *. apply verify_dots_X; assumption.
+  unfold verify in *. cbn [fst snd] in *. eapply verify_dots_X; eassumption.
 Qed.
 
 End CheckProofs.
@@ -437,3 +438,97 @@ Lemma ecbbot_messages_differ_l idx a phi :
 Proof. unfold ec_send. cbn [fst snd]. intros E. discriminate E. Qed.
 
 End BaseProofs.
+
+(* ---------------------------------------------------------------- GF(2): an instance of every law record
+   (used by the non-vacuity examples of props/C09.v) *)
+
+Definition gf2 : fops bool := {|
+  f0 := false; f1 := true; fadd := xorb; fmul := andb; fsub := xorb; fopp := fun x => x;
+  finv := fun x => x; fdiv := andb; feqb := Bool.eqb
+|}.
+
+Lemma gf2_flaws : flaws gf2.
+Proof.
+  constructor.
+  - constructor; [constructor|..]; cbn; try (intros [] ; reflexivity); try (intros [] []; reflexivity);
+      try (intros [] [] []; reflexivity); try discriminate.
+    intros [] H; [reflexivity | exfalso; apply H; reflexivity].
+  - intros x y. cbn. apply Bool.eqb_true_iff.
+Qed.
+
+Definition c2_gf2 : c2ops bool := {| r0 := false; r1 := true; radd := xorb; rmul := andb; reqb := Bool.eqb |}.
+
+Lemma c2_gf2_laws : c2laws c2_gf2.
+Proof.
+  constructor; cbn; try (intros []; reflexivity); try (intros [] []; reflexivity); try (intros [] [] []; reflexivity).
+  intros x y. apply Bool.eqb_true_iff.
+Qed.
+
+Definition emb_hd (v : bits) : bool := hd false v.
+Lemma emb_hd_xor a b : length a = length b -> emb_hd (xorv a b) = xorb (emb_hd a) (emb_hd b).
+Proof. destruct a, b; cbn; intros H; try discriminate; reflexivity. Qed.
+
+(* ---------------------------------------------------------------- the executable bf128 embedding is additive
+   (the [emb] hypothesis of the check theorems holds for emb128 / bf_add) *)
+
+Lemma fit_length n v : length (fit n v) = n.
+Proof. revert v; induction n as [|n IH]; intros [|x v]; cbn; try reflexivity; rewrite IH; reflexivity. Qed.
+
+Lemma fit_xorv n a b : length a = length b -> fit n (xorv a b) = xorv (fit n a) (fit n b).
+Proof.
+  revert a b; induction n as [|n IH]; intros [|x a] [|y b] H; cbn in *; try discriminate; try reflexivity.
+  - f_equal. apply (IH [] []). reflexivity.
+  - f_equal. apply IH. lia.
+Qed.
+
+Lemma xorp_xorv a b : length a = length b -> xorp a b = xorv a b.
+Proof.
+  revert b; induction a as [|x a IH]; intros [|y b] H; cbn in *; try discriminate; try reflexivity.
+  rewrite IH by lia. reflexivity.
+Qed.
+
+Lemma fit_id n v : length v = n -> fit n v = v.
+Proof. revert v; induction n as [|n IH]; intros [|x v] H; cbn in *; try discriminate; try reflexivity. rewrite IH by lia. reflexivity. Qed.
+
+Lemma app_xorv a1 a2 b1 b2 : length a1 = length b1 -> xorv (a1 ++ a2) (b1 ++ b2) = xorv a1 b1 ++ xorv a2 b2.
+Proof.
+  revert b1; induction a1 as [|x a1 IH]; intros [|y b1] H; cbn in *; try discriminate; try reflexivity.
+  rewrite IH by lia. reflexivity.
+Qed.
+
+Lemma rev_bytes_xorv n a b acca accb : length a = length b -> length acca = length accb ->
+  rev_bytes_fuel n (xorv a b) (xorv acca accb) = xorv (rev_bytes_fuel n a acca) (rev_bytes_fuel n b accb)
+  /\ length (rev_bytes_fuel n a acca) = length (rev_bytes_fuel n b accb).
+Proof.
+  revert a b acca accb; induction n as [|n IH]; intros a b acca accb H Ha; cbn [rev_bytes_fuel]; [split; [reflexivity|exact Ha]|].
+  destruct a as [|x a], b as [|y b]; cbn in H; try discriminate; [split; [reflexivity|exact Ha]|].
+  cbn [xorv].
+  change (xorb x y :: xorv a b) with (xorv (x :: a) (y :: b)).
+  assert (Hl : length (firstn 8 (x :: a)) = length (firstn 8 (y :: b))) by (rewrite !firstn_length; cbn [length]; lia).
+  rewrite skipn_xorv by (cbn [length]; lia). rewrite firstn_xorv.
+  rewrite <- app_xorv by exact Hl.
+  apply IH.
+  - rewrite !skipn_length. cbn [length]. lia.
+  - rewrite !app_length. lia.
+Qed.
+
+Lemma rev_bytes_length n v acc : length v <= 8 * n ->
+  length (rev_bytes_fuel n v acc) = length v + length acc.
+Proof.
+  revert v acc; induction n as [|n IH]; intros v acc H; cbn [rev_bytes_fuel].
+  - destruct v; cbn in *; [reflexivity | lia].
+  - destruct v as [|x v]; [reflexivity|].
+    rewrite IH by (rewrite skipn_length; lia).
+    rewrite skipn_length, app_length, firstn_length. lia.
+Qed.
+
+Lemma emb128_xor a b : length a = length b -> emb128 (xorv a b) = radd bf128 (emb128 a) (emb128 b).
+Proof.
+  intros H. unfold emb128. cbn [radd bf128]. unfold bf_add.
+  rewrite fit_xorv by exact H.
+  destruct (rev_bytes_xorv 16 (fit 128 a) (fit 128 b) [] []) as [E L]; [rewrite !fit_length; reflexivity | reflexivity |].
+  change (xorv [] []) with (@nil bool) in E. rewrite E.
+  rewrite xorp_xorv by exact L.
+  symmetry. apply fit_id. rewrite xorv_length, <- L, Nat.min_id.
+  rewrite rev_bytes_length by (rewrite fit_length; lia). rewrite fit_length. reflexivity.
+Qed.
